@@ -384,6 +384,34 @@ func runUnpack(w *hx.Writer, id string, n int, seed uint64) {
 func runPack(w *hx.Writer, id string, target int, seed uint64) {
 	m := bigMsg(uint16(seed), target, seed)
 	m.Compress = false
+	runPackMsg(w, id, m, target)
+}
+
+// manyMsg: nrec small records under one owner name. With Compress set the owner names shrink to
+// pointers, so the packed size is well below the uncompressed size miekg/dns sizes its buffer by.
+func manyMsg(id uint16, nrec, rdlen int, seed uint64) *dns.Msg {
+	m := new(dns.Msg)
+	m.SetQuestion("example.org.", dns.TypeTXT)
+	m.Id = id
+	m.Response = true
+	for i := 0; i < nrec; i++ {
+		rr := &dns.RFC3597{Hdr: dns.RR_Header{Name: "example.org.", Rrtype: 65280, Class: dns.ClassINET, Ttl: 60}}
+		rr.Rdata = fmt.Sprintf("%x", hx.GenBytes(rdlen, seed+uint64(i)))
+		m.Answer = append(m.Answer, rr)
+	}
+	return m
+}
+
+// runPackCompressed: a compressible reply (Compress = true) whose uncompressed and packed sizes lie on
+// either side of, or around, the 8 KiB scratch buffer of PackTCPBuffer. The frame must hold exactly
+// what an independent Pack of the same message yields.
+func runPackCompressed(w *hx.Writer, id string, nrec, rdlen int, seed uint64) {
+	m := manyMsg(uint16(seed), nrec, rdlen, seed)
+	m.Compress = true
+	runPackMsg(w, id, m, nrec*(rdlen+23))
+}
+
+func runPackMsg(w *hx.Writer, id string, m *dns.Msg, target int) {
 	wire, err := m.Pack()
 	n := len(wire)
 	if err != nil {
@@ -689,6 +717,16 @@ func main() {
 			runPack(w, id, n, uint64(n))
 		}
 	}
+	// compressible replies: uncompressed size from below to above the 8 KiB scratch buffer while the packed
+	// size stays below it (240..420 records), then both above it
+	for _, nrec := range []int{3, 100, 240, 247, 250, 260, 300, 340, 371, 372, 373, 380, 420, 600, 1500, 2900} {
+		for _, rdlen := range []int{0, 10} {
+			id := fmt.Sprintf("cat:packc:%d:%d", nrec, rdlen)
+			if o.Want(id) {
+				runPackCompressed(w, id, nrec, rdlen, uint64(nrec+rdlen))
+			}
+		}
+	}
 
 	// framed garbage through the unpacking reader: every payload length from below the header up to 80 bytes
 	// (pooled buffers have capacities 15, 31, 63, 127: whatever slices them blindly shows here), some larger
@@ -811,7 +849,13 @@ func main() {
 			}
 			runWrite(w, id, hx.Pick(r, []string{"WRaw", "WCopy"}), genLen(r)+big, r.U64()%1000000)
 		case 1:
-			runPack(w, id, r.Range(30, 70000), r.U64()%1000000)
+			// (the two draws are those of the plain variant, so the rest of the stream is unchanged)
+			t, sd := r.Range(30, 70000), r.U64()%1000000
+			if sd%3 == 0 {
+				runPackCompressed(w, id, 1+t%700, int(sd%40), sd)
+			} else {
+				runPack(w, id, t, sd)
+			}
 		default:
 			runStream(w, id, genStream(r), genSizes(r))
 		}
